@@ -219,7 +219,11 @@ def audit(ctx, keys):
     ctx.count(n=res["pairs"] + res["triples"] + res["anchors"] + res["shape_cases"])
     for i in range(res["distinct"]):
         ctx.nontrivial.add(f"audit{i}")
-    for f in res["failures"][:5]:
+    shown = set()
+    for f in res["failures"]:          # the first failure of every distinct kind (one kind must not hide another)
+        if f["kind"] in shown or len(shown) >= 8:
+            continue
+        shown.add(f["kind"])
         ctx.violation("C10:" + f["kind"], f["what"], {"kind": "counterexample", **f})
     if res["failures"]:
         ctx.log("audit failures:", len(res["failures"]))
